@@ -168,3 +168,52 @@ def dag_grammar(r):
     stmts.append(gast.call('cmd', e))
     r.shuffle(stmts)
     return stmts
+
+
+def described_groups_grammar(r):
+    """Group descriptions `( ... ) "d"` over sequences, alternatives, options and repetitions whose literals are
+    partly described already, nested in each other: which literal ends up with which description."""
+    n = [0]
+
+    def atom():
+        k = r.random()
+        n[0] += 1
+        if k < 0.45:
+            return gast.lit('l%d' % n[0])
+        if k < 0.7:
+            return gast.lit('l%d' % n[0], r.choice(['own one', 'own two', 'x']))
+        if k < 0.8:
+            return gast.nt('U%d' % (n[0] % 3))
+        if k < 0.9:
+            return gast.cmd('echo c%d' % (n[0] % 3))
+        return ('word', (gast.lit('k%d=' % n[0]), gast.alt(gast.lit('v'), gast.lit('w', r.choice([None, 'own w'])))))
+
+    def e(d):
+        k = r.random()
+        if d == 0 or k < 0.2:
+            return atom()
+        if k < 0.45:
+            return gast.seq(*[e(d - 1) for _ in range(r.randint(2, 3))])
+        if k < 0.6:
+            return gast.alt(*[e(d - 1) for _ in range(r.randint(2, 3))])
+        if k < 0.67:
+            return gast.fb(e(d - 1), e(d - 1))
+        if k < 0.74:
+            return gast.opt(e(d - 1))
+        if k < 0.8:
+            return gast.many(e(d - 1))
+        return describe(e(d - 1), r.choice(['group one', 'group two', 'g']))
+
+    def describe(x, d):
+        if x[0] == 'lit':
+            return gast.lit(x[1], d) if x[2] is None else x
+        if x[0] == 'desc':
+            return x
+        return gast.desc(x, d)
+    body = e(r.randint(2, 4))
+    if r.random() < 0.6:
+        body = describe(body, 'outer group')
+    stmts = [gast.call('cmd', body)]
+    if r.random() < 0.3:
+        stmts.append(gast.defn('U0', None, gast.desc(gast.seq(gast.lit('d1', r.choice([None, 'own d'])), gast.lit('d2')), 'in definition')))
+    return stmts
